@@ -225,6 +225,6 @@ def run_shard(ctx):
         if len(per_lang) > 1:
             cl.append('two-collections')
         ctx.stats.case(key=r.src, nontrivial=nt, classes=cl, n=1,
-                       sample={'src': r.src, 'lang': doc[0], 'ml': doc[1]} if nt and ctx.stats.evaluations % 300 == 0 else None)
+                       sample={'src': r.src, 'lang': doc[0], 'ml': doc[1]})
         ctx.stats.extra['formulas'] = ctx.stats.extra.get('formulas', 0) + len(r.forms)
     hyp_run(ctx, doc_s, one, ctx.n(20000, 400000))
